@@ -194,6 +194,9 @@ class FG:
 # --------------------------------------------------------------------------------------------------------------
 
 
+_CLOCK = [0]
+
+
 class Spy:
     """Wrap every definition of `name` on the MROs of the given classes; record the first (outermost) call."""
 
@@ -213,7 +216,8 @@ class Spy:
 
             def wrapper(*a, __orig=orig, __k=k, **kw):
                 if self.depth == 0:
-                    self.calls.append((__k.__name__, a, kw))
+                    _CLOCK[0] += 1
+                    self.calls.append((__k.__name__, a, kw, _CLOCK[0]))
                 self.depth += 1
                 try:
                     return __orig(*a, **kw)
@@ -307,6 +311,11 @@ def densify(x):
 EXACT = {"torch.add", "torch.sub", "torch.mul", "torch.matmul", "torch.clone", "torch.numel", "torch.transpose", "torch.permute",
          "torch.squeeze", "torch.unsqueeze", "torch.sum", "torch.diagonal", "torch.isclose", "torch.abs", "torch.div",
          "torch.Tensor.add", "torch.Tensor.sub", "torch.Tensor.mul", "torch.Tensor.matmul"}
+SHAPE_ONLY = {"torch.clone", "torch.numel", "torch.transpose", "torch.permute", "torch.squeeze", "torch.unsqueeze", "torch.isclose"}
+# one-operand numeric functions whose *method* semantics (matrix function vs elementwise, symmetric-only eigh, ...) is the
+# business of C04-C06: dispatch == method is checked exactly, disagreement with dense torch is only counted
+METHOD_LEVEL = {"torch.abs", "torch.exp", "torch.log", "torch.sqrt", "torch.inverse", "torch.logdet", "torch.prod", "torch.linalg.cholesky",
+                "torch.linalg.eigh", "torch.linalg.eigvalsh", "torch.linalg.svd", "torch.linalg.solve", "torch.linalg.solve_triangular"}
 RECON = {"torch.linalg.eigh", "torch.linalg.svd"}
 
 
@@ -319,7 +328,7 @@ def compare_dense(fkey, impl, dense, A, dt):
 
 def _compare_dense(fkey, impl, dense, A, dt):
     """impl result vs torch on dense operands.  Returns None or a (aspect, description)."""
-    tol = 0.0 if fkey in EXACT else (1e-7 if dt == torch.float64 else 2e-3)
+    tol = 1e-7 if dt == torch.float64 else 2e-3
     ci, cd = canon(impl), canon(dense)
     if fkey == "torch.linalg.eigh":
         if ci[0] != "L" or len(ci[1]) != 2:
@@ -495,12 +504,12 @@ def templates_second(fkey, b, n, dt, rng, kinds):
     return res
 
 
-PYOPS = [("T@op", "torch.Tensor.matmul", lambda T, op: T @ op), ("T+op", "torch.Tensor.add", lambda T, op: T + op),
-         ("T-op", "torch.Tensor.sub", lambda T, op: T - op), ("T*op", "torch.Tensor.mul", lambda T, op: T * op),
-         ("T/op", "torch.Tensor.div", lambda T, op: T / op),
-         ("op@T", None, lambda T, op: op @ T), ("op+T", None, lambda T, op: op + T), ("op-T", None, lambda T, op: op - T),
-         ("op*T", None, lambda T, op: op * T), ("op/2", None, lambda T, op: op / 2.0), ("2*op", None, lambda T, op: 2.0 * op),
-         ("op*2", None, lambda T, op: op * 2.0), ("v@op", "torch.Tensor.matmul", lambda T, op: T[..., 0, :] @ op)]
+PYOPS = [("T_matmul_op", "torch.Tensor.matmul", lambda T, op: T @ op), ("T_add_op", "torch.Tensor.add", lambda T, op: T + op),
+         ("T_sub_op", "torch.Tensor.sub", lambda T, op: T - op), ("T_mul_op", "torch.Tensor.mul", lambda T, op: T * op),
+         ("T_div_op", "torch.Tensor.div", lambda T, op: T / op),
+         ("op_matmul_T", None, lambda T, op: op @ T), ("op_add_T", None, lambda T, op: op + T), ("op_sub_T", None, lambda T, op: op - T),
+         ("op_mul_T", None, lambda T, op: op * T), ("op_div_2", None, lambda T, op: op / 2.0), ("2_mul_op", None, lambda T, op: 2.0 * op),
+         ("op_mul_2", None, lambda T, op: op * 2.0), ("v_matmul_op", "torch.Tensor.matmul", lambda T, op: T[..., 0, :] @ op)]
 
 
 # --------------------------------------------------------------------------------------------------------------
@@ -512,7 +521,8 @@ def outcome(thunk):
     try:
         with warnings.catch_warnings():
             warnings.simplefilter("ignore")
-            return ("ok", thunk())
+            res = thunk()
+            return ("ok", res, canon(res))   # a lazy result that cannot be evaluated counts as raising
     except Exception as e:  # noqa: BLE001
         return ("raise", e)
 
@@ -587,13 +597,9 @@ class Group:
         finally:
             for s in reversed(spies):
                 s.__exit__()
-        calls = [(s.name,) + s.calls[0] for s in spies if s.calls]
-        # the outermost handler call is the one whose `self`/args are exactly our objects
-        obs = None
-        for nm, definer, a, kw in calls:
-            if any(x is y for x in a[:2] for y in args1):
-                obs = (nm, definer, a, kw)
-                break
+        calls = sorted(((s.name,) + s.calls[0] for s in spies if s.calls), key=lambda c: c[4])
+        # the handler call is the earliest observed call (the one __torch_function__ makes)
+        obs = calls[0][:4] if calls else None
         tokens = [arg_token(a) for a in args1]
         if obs is not None:
             nm, definer, a, kw = obs
@@ -641,7 +647,7 @@ class Group:
                     if type(r_impl[1]) is not type(r_meth[1]):
                         problems.append(("vs-method", f"dispatch raises {type(r_impl[1]).__name__}, method raises {type(r_meth[1]).__name__}"))
                 else:
-                    d = same(canon(r_impl[1]), canon(r_meth[1]), 0.0)
+                    d = same(r_impl[2], r_meth[2], 0.0)
                     if d:
                         problems.append(("vs-method", f"dispatch result differs from {nm}(): {d}"))
         # versus dense torch
@@ -649,7 +655,9 @@ class Group:
         if r_dense[0] == "ok":
             if r_impl[0] == "ok":
                 d = compare_dense(fkey, r_impl[1], r_dense[1], self.A, self.opdt)
-                if d:
+                if d and fkey in METHOD_LEVEL:
+                    chk.count("method-vs-dense-differs:" + fkey)
+                elif d:
                     problems.append(("vs-dense:" + d[0], d[1]))
                 else:
                     chk.count("agree-with-dense")
@@ -669,8 +677,10 @@ class Group:
                 and all(is_op(x) or (isinstance(x, torch.Tensor) and x.dim() == 2 and x.shape[0] == x.shape[1] == self.n) for x in args1)
                 and set(kwargs) <= {"alpha"} and self.opdt == torch.float64):
             X, Y = (densify(a) for a in args3)
-            got = canon(r_impl[1])[1]
-            if got.dim() == 2 and torch.isfinite(got).all():
+            got = r_impl[2][1]
+            if got.dim() == 2 and torch.isfinite(got).all() and (got - got.round()).abs().max() < 1e-6 and \
+                    all((t - t.round()).abs().max() == 0 for t in (X, Y)):
+                got = got.round()
                 al = str(kwargs["alpha"]) if "alpha" in kwargs else "n"
                 vline = f"val {fkey} {tokens[0]} {tokens[1]} {al} {fmt(X)} {fmt(Y)}"
                 self.lines.append((vline, fmt(got), cell + "/value-model", self.payload(fkey=fkey, pos=pos, label=label), "val"))
@@ -706,8 +716,8 @@ class Group:
             if only and (label, "pyop", label) != only:
                 continue
             self.run_pyop(label, fkey, f)
-        # unregistered functions
-        for name, arity in UNREGISTERED:
+        # unregistered functions (quick tier: on the unbatched instance of every class only)
+        for name, arity in ([] if (self.chk.tier == "quick" and self.batch and not only) else UNREGISTERED):
             if only and (name, "unreg", str(arity)) != only:
                 continue
             self.run_unregistered(name, arity)
@@ -735,7 +745,7 @@ class Group:
             else:
                 chk.count("rejected:" + type(r_impl[1]).__name__)
             return
-        d = compare_dense("torch.add" if "/" not in label else "torch.div", r_impl[1], r_dense[1], self.A, self.opdt)
+        d = compare_dense("torch.add", r_impl[1], r_dense[1], self.A, self.opdt)
         if d:
             chk.violation(cell + "/vs-dense:" + d[0], f"{label}: {d[1]}", self.payload(pyop=label))
         else:
